@@ -2,7 +2,7 @@
 C14 layer L3: the protocol invariant. Mutual exclusion of executions for every reachable state of
 the transition system of Model/C14_Proto.lean — any number of containers and instances, any
 interleaving of scheduler calls, probes, start commands, process exits, instance lifecycle events
-and dispatcher restarts — under the environment assumptions A1–A3 written into the guards of
+and dispatcher restarts — under the environment assumptions A1, A2 written into the guards of
 `Step` (see the header of Model/C14_Proto.lean).
 -/
 import ArvVerif.Proofs.C14_L3b
@@ -44,7 +44,7 @@ theorem C14_start_on_idle_run_only (s t : PState) (st : Step s t) (i : Nat) (c :
     (hnew : c ∈ w'.starting) (hold : c ∉ w.starting) :
     w.state = .idle ∧ w.idleB = .run ∧ s.lastKillFalse = some c := by
   cases st with
-  | schedStart i' c' w0 h1 h2 h3 h4 h5 h6 =>
+  | schedStart i' c' w0 h1 h2 h3 h4 h5 =>
     have a1 := Worker.accept_starting w0 c'
     simp only [upd_eq] at hw'
     grind
@@ -63,8 +63,8 @@ theorem C14_start_on_idle_run_only (s t : PState) (st : Step s t) (i : Nat) (c :
           rw [← d2]; exact this.1
     simp only [upd_eq] at hw'
     grind
-  | startDone i' c' w0 h1 h2 h3 =>
-    have a1 := Worker.startDone_starting w0 c'
+  | startDone i' c' w0 h1 h2 =>
+    have a1 := fun v => Worker.startDone_starting w0 c' v (s.clock + 1)
     simp only [upd_eq] at hw'
     grind
   | killed i' c' w0 h1 h2 =>
@@ -104,7 +104,7 @@ example : ∃ s, Reach s ∧ (7 : Uuid) ∈ s.procs 1 ∧ s.phase = .scheduling 
       subst hw
       revert hc; decide
     · simp [upd, hi, PState.init] at hw))
-  have r8 := Reach.step r7 (Step.schedStart _ 1 7 _ rfl rfl rfl (by decide) (by decide) rfl)
+  have r8 := Reach.step r7 (Step.schedStart _ 1 7 _ rfl rfl rfl (by decide) (by decide))
   have r9 := Reach.step r8 (Step.startExec _ 1 7 true rfl)
   exact ⟨_, r9, by decide, rfl⟩
 
@@ -149,7 +149,7 @@ theorem C14_mutual_exclusion_full_fails : ¬ C14_mutual_exclusion_Full := by
       subst hw
       revert hc; decide
     · simp [upd, hi, PState.init] at hw)))
-  have r8 := ReachU.step r7 (.base (Step.schedStart _ 1 7 _ rfl rfl rfl (by decide) (by decide) rfl))
+  have r8 := ReachU.step r7 (.base (Step.schedStart _ 1 7 _ rfl rfl rfl (by decide) (by decide)))
   have r9 := ReachU.step r8 (.base (Step.startExec _ 1 7 true rfl))
   -- the dispatcher dies; the new one gives up before instance 1 is probed
   have r10 := ReachU.step r9 (.base (Step.restart _))
@@ -168,7 +168,7 @@ theorem C14_mutual_exclusion_full_fails : ¬ C14_mutual_exclusion_Full := by
       subst hw
       revert hc; decide
     · simp [upd, hi] at hw)))
-  have r18 := ReachU.step r17 (.base (Step.schedStart _ 2 7 _ rfl rfl rfl (by decide) (by decide) rfl))
+  have r18 := ReachU.step r17 (.base (Step.schedStart _ 2 7 _ rfl rfl rfl (by decide) (by decide)))
   have r19 := ReachU.step r18 (.base (Step.startExec _ 2 7 true rfl))
   have := hfull _ r19 7 1 2 (by decide) (by decide)
   cases this
